@@ -166,8 +166,8 @@ func (s *Service) Start(ctx context.Context) error {
 		go func() {
 			defer s.wg.Done()
 			defer close(mainSignal)
-			defer s.isRunning.Store(false)
 			defer s.isFinished.Store(true)
+			defer s.isRunning.Store(false)
 			if s.Cleanup != nil {
 				cleanup := s.Cleanup
 				// this catches a panic during shutdown
